@@ -1,4 +1,5 @@
 #!/bin/bash
+export MUT_COMMITTED=1   # judge with the committed harness, not a working tree in mid-edit
 # seed_pipeline.sh <PROP> <x> <src-dir> <demo-file-name> <demo-dest-rel> "<demo cmd>"
 # confirm (demo both ways + full suite) + run the property's quick check against the patch,
 # then record everything under /verif/seeded/<PROP>-<x>/
